@@ -198,10 +198,14 @@ class ObsDW(hooks.Observer):
         super().__init__(cfg["steps"], err, max_points=3000)
         self.res, self.cfg, self.comps = res, cfg, comps
         self.trace = []
+        self.quiet = False     # quiet histories: nothing is read from the live object before the final state
 
     def after_evaluate(self, c, r):
         super().after_evaluate(c, r)
-        where = "evaluation #%d" % self.evals
+        if not self.quiet:
+            self.judge(c, "evaluation #%d" % self.evals)
+
+    def judge(self, c, where):
         reported = np.array(c.operation.get_result(), dtype=float)
         f2 = mkf(self.comps)
         g2 = dw_grid(self.cfg)
@@ -214,7 +218,7 @@ class ObsDW(hooks.Observer):
         self.res.close("recomputation_dimwise", reported, exp, tol_for(parts), "C05_dimwise_result_differs",
                        "%s: reported value differs from the recomputation over the current scheme with fresh objects" % where,
                        {"cfg": self.cfg})
-        if self.evals % 2 == 1 or self.evals <= 2:
+        if self.evals % 2 == 1 or self.evals <= 2 or self.quiet:
             cc = copy.deepcopy(c)
             cc.vobs = None
             val, _ = cc.evaluate_final_combi()
@@ -240,9 +244,14 @@ def run_dimwise(case, res):
     f = mkf(comps)
     err = hooks.RandErr(cfg["errseed"], cfg["profile"], d, cfg["a"], cfg["b"])
     obs = ObsDW(res, cfg, comps, err)
+    obs.quiet = rng.random() < 0.3
+    cfg["quiet_until_final_state"] = obs.quiet
     c = dimwise.build(cfg, f, obs, grid=dw_grid(cfg))
     res.count("grid_" + cfg["grid"])
     dimwise.run(c, cfg, err)
+    if obs.quiet:
+        res.count("quiet_histories")
+        obs.judge(c, "final state (after %d evaluations)" % obs.evals)
     final = np.array(c.operation.get_result(), dtype=float)
     # (d) points and weights of the final state
     pts, w = c.get_points_and_weights()
@@ -289,13 +298,17 @@ class ObsES(hooks.Observer):
         self.res, self.cfg, self.comps = res, cfg, comps
         self.trace = []
         self.parts_scale = None
+        self.quiet = False     # quiet histories: nothing is read from the live object before the final state
 
     def deepest(self, c):
         return 0
 
     def after_evaluate(self, c, r):
         super().after_evaluate(c, r)
-        where = "evaluation #%d" % self.evals
+        if not self.quiet:
+            self.judge(c, "evaluation #%d" % self.evals)
+
+    def judge(self, c, where):
         reported = np.array(c.operation.get_result(), dtype=float)
         f2 = mkf(self.comps)
         g2 = extsplit.make_grid(self.cfg)
@@ -310,7 +323,7 @@ class ObsES(hooks.Observer):
         self.res.close("recomputation_extsplit", reported, exp, tol_for(parts), "C05_extsplit_result_differs",
                        "%s: reported value differs from the recomputation over leaves x computed component grids" % where,
                        {"cfg": self.cfg, "leaves": len(extsplit.leaves(c))})
-        if self.evals % 2 == 1 or self.evals <= 2:
+        if self.evals % 2 == 1 or self.evals <= 2 or self.quiet:
             cc = copy.deepcopy(c)
             cc.vobs = None
             with contextlib.redirect_stdout(io.StringIO()):
@@ -347,9 +360,15 @@ def run_extsplit(case, res):
     f = mkf(comps)
     err = extsplit.make_err(cfg)
     obs = ObsES(res, cfg, comps, err if cfg["profile"] != "real" else None)
+    obs.quiet = rng.random() < 0.3
+    cfg["quiet_until_final_state"] = obs.quiet
     c = extsplit.build(cfg, f, obs)
     with contextlib.redirect_stdout(io.StringIO()):
         extsplit.run(c, cfg, err)
+    if obs.quiet:
+        res.count("quiet_histories")
+        obs.judge(c, "final state (after %d evaluations)" % obs.evals)
+        obs.quiet = False
     if obs.steps >= 1 and rng.random() < 0.25:
         # the documented way to go on from an existing refinement: performSpatiallyAdaptiv(start levels, refinement_container=current one);
         # the observer keeps comparing every reported value with the recomputation and with evaluate_final_combi on a copy
